@@ -289,6 +289,98 @@ pub mod unit {
         }
     }
 
+
+    // ---- what `merged_r` means, relative to the infallible oracle --------------------------------
+    /// the entries the underlying iterator delivers before its first `Err`
+    pub open spec fn okp<V, E>(u: Seq<UItem<V, E>>) -> Seq<(u64, V)>
+        decreases u.len()
+    {
+        if u.len() == 0 || u[0] is Err { Seq::empty() } else { seq![u[0]->Ok_0] + okp(tl(u)) }
+    }
+    pub proof fn lemma_okp_tl<V, E>(u: Seq<UItem<V, E>>)
+        requires u.len() > 0, u[0] is Ok
+        ensures okp(u) == seq![u[0]->Ok_0] + okp(tl(u)), tl(okp(u)) =~= okp(tl(u)),
+                okp(u).len() == 1 + okp(tl(u)).len(), okp(u)[0] == u[0]->Ok_0,
+    {}
+
+    /// The fallible merge
+    ///  * yields, as `Ok` items, a prefix of the infallible merge of (entries before the first error) with the overlay;
+    ///  * yields an `Err` only as its LAST item, and that item is the first `Err` of the underlying iterator;
+    ///  * if the underlying iterator has an `Err`, it IS yielded (iteration ends with it);
+    ///  * if the underlying iterator has no `Err`, the result is the complete infallible merge.
+    pub proof fn lemma_merged_r<V, E>(u: Seq<UItem<V, E>>, o: Seq<(u64, Option<V>)>)
+        ensures ({
+            let mr = merged_r(u, o, false); let mm = merged(okp(u), o); let n = okp(u).len();
+            &&& n <= u.len()
+            &&& forall|i: int| 0 <= i < mr.len() && (#[trigger] mr[i]) is Ok ==> i < mm.len() && mr[i] == Ok::<(u64, V), E>(mm[i])
+            &&& forall|i: int| 0 <= i < mr.len() && (#[trigger] mr[i]) is Err ==> i == mr.len() - 1 && n < u.len() && mr[i] == u[n as int]
+            &&& n < u.len() ==> mr.len() >= 1 && mr[mr.len() - 1] is Err
+            &&& n == u.len() ==> mr.len() == mm.len()
+        }),
+        decreases u.len() + o.len()
+    {
+        let mr = merged_r(u, o, false); let mm = merged(okp(u), o); let n = okp(u).len();
+        if u.len() > 0 && u[0] is Err {
+            assert(mr =~= seq![u[0]]);
+        } else if o.len() == 0 {
+            if u.len() == 0 {
+            } else {
+                lemma_okp_tl(u);
+                lemma_merged_r(tl(u), o);
+                let mr1 = merged_r(tl(u), o, false); let mm1 = merged(okp(tl(u)), o); let n1 = okp(tl(u)).len();
+                assert(mr == seq![u[0]] + mr1);
+                assert(mm == okp(u) && mm1 == okp(tl(u)));
+                assert forall|i: int| 0 <= i < mr.len() && (#[trigger] mr[i]) is Ok implies i < mm.len() && mr[i] == Ok::<(u64, V), E>(mm[i]) by {
+                    if i > 0 { assert(mr[i] == mr1[i - 1]); assert(mm[i] == mm1[i - 1]); }
+                }
+                assert forall|i: int| 0 <= i < mr.len() && (#[trigger] mr[i]) is Err implies i == mr.len() - 1 && n < u.len() && mr[i] == u[n as int] by {
+                    assert(i > 0); assert(mr[i] == mr1[i - 1]); assert(u[n as int] == tl(u)[n1 as int]);
+                }
+                if n < u.len() { assert(mr[mr.len() - 1] == mr1[mr1.len() - 1]); }
+            }
+        } else if u.len() > 0 && u[0]->Ok_0.0 < o[0].0 {
+            lemma_okp_tl(u);
+            lemma_merged_r(tl(u), o);
+            let mr1 = merged_r(tl(u), o, false); let mm1 = merged(okp(tl(u)), o); let n1 = okp(tl(u)).len();
+            assert(mr == seq![u[0]] + mr1);
+            assert(mm == seq![okp(u)[0]] + mm1);
+            assert forall|i: int| 0 <= i < mr.len() && (#[trigger] mr[i]) is Ok implies i < mm.len() && mr[i] == Ok::<(u64, V), E>(mm[i]) by {
+                if i > 0 { assert(mr[i] == mr1[i - 1]); assert(mm[i] == mm1[i - 1]); }
+            }
+            assert forall|i: int| 0 <= i < mr.len() && (#[trigger] mr[i]) is Err implies i == mr.len() - 1 && n < u.len() && mr[i] == u[n as int] by {
+                assert(i > 0); assert(mr[i] == mr1[i - 1]); assert(u[n as int] == tl(u)[n1 as int]);
+            }
+            if n < u.len() { assert(mr[mr.len() - 1] == mr1[mr1.len() - 1]); }
+        } else {
+            let eq = u.len() > 0 && u[0]->Ok_0.0 == o[0].0;
+            let u2 = if eq { tl(u) } else { u };
+            if u.len() > 0 { lemma_okp_tl(u); }
+            lemma_merged_r(u2, tl(o));
+            let mr1 = merged_r(u2, tl(o), false); let mm1 = merged(okp(u2), tl(o)); let n1 = okp(u2).len();
+            let pu2 = if okp(u).len() > 0 && okp(u)[0].0 == o[0].0 { tl(okp(u)) } else { okp(u) };
+            assert(pu2 =~= okp(u2));
+            assert(mm1 == merged(pu2, tl(o)));
+            if eq { assert(n == n1 + 1); assert(n < u.len() ==> u[n as int] == tl(u)[n1 as int]); } else { assert(n == n1); }
+            match o[0].1 {
+                Some(v) => {
+                    assert(mr == seq![Ok::<(u64, V), E>((o[0].0, v))] + mr1);
+                    assert(mm == seq![(o[0].0, v)] + mm1);
+                    assert forall|i: int| 0 <= i < mr.len() && (#[trigger] mr[i]) is Ok implies i < mm.len() && mr[i] == Ok::<(u64, V), E>(mm[i]) by {
+                        if i > 0 { assert(mr[i] == mr1[i - 1]); assert(mm[i] == mm1[i - 1]); }
+                    }
+                    assert forall|i: int| 0 <= i < mr.len() && (#[trigger] mr[i]) is Err implies i == mr.len() - 1 && n < u.len() && mr[i] == u[n as int] by {
+                        assert(i > 0); assert(mr[i] == mr1[i - 1]);
+                    }
+                    if n < u.len() { assert(mr[mr.len() - 1] == mr1[mr1.len() - 1]); }
+                }
+                None => {
+                    assert(mr == mr1);
+                    assert(mm == mm1);
+                }
+            }
+        }
+    }
+
     // R12: real header `impl<K, V, U, O, E> Iterator for OverlayingResultIterator<U, O> where K: Ord,
     // U: Iterator<Item = Result<(K, V), E>>, O: Iterator<Item = (K, Option<V>)>`; K := u64, U, O := SeqIter.
     impl<V, E> Iterator for OverlayingResultIterator<SeqIter<Result<(u64, V), E>>, SeqIter<(u64, Option<V>)>>
@@ -307,6 +399,54 @@ pub mod unit {
                 merged_r(self.underlying.rest(), self.overlaying.rest(), false) == merged_r(old(self).underlying.rest(), old(self).overlaying.rest(), false),
             decreases self.underlying.rest().len() + self.overlaying.rest().len(),
         @*/
+    }
+
+    // ---- composition (hand-written callers, no repo code): the WHOLE sequence produced by repeated
+    // `next()` calls is the oracle sequence ------------------------------------------------------
+    pub fn drain_overlaying<V>(it: &mut OverlayingIterator<SeqIter<(u64, V)>, SeqIter<(u64, Option<V>)>>) -> (out: Vec<(u64, V)>)
+        ensures out@ == merged(old(it).underlying.rest(), old(it).overlaying.rest())
+    {
+        let mut out: Vec<(u64, V)> = Vec::new();
+        loop
+            invariant out@ + merged(it.underlying.rest(), it.overlaying.rest()) == merged(old(it).underlying.rest(), old(it).overlaying.rest()),
+            decreases merged(it.underlying.rest(), it.overlaying.rest()).len(),
+        {
+            let ghost m = merged(it.underlying.rest(), it.overlaying.rest());
+            let ghost pre = out@;
+            match it.next() {
+                Some(x) => {
+                    out.push(x);
+                    proof { assert(out@ + m.subrange(1, m.len() as int) =~= pre + m); }
+                }
+                None => {
+                    proof { assert(pre + m =~= pre); }
+                    return out;
+                }
+            }
+        }
+    }
+    pub fn drain_overlaying_result<V, E>(it: &mut OverlayingResultIterator<SeqIter<Result<(u64, V), E>>, SeqIter<(u64, Option<V>)>>) -> (out: Vec<Result<(u64, V), E>>)
+        ensures out@ == merged_r(old(it).underlying.rest(), old(it).overlaying.rest(), old(it).errored_out)
+    {
+        let mut out: Vec<Result<(u64, V), E>> = Vec::new();
+        loop
+            invariant out@ + merged_r(it.underlying.rest(), it.overlaying.rest(), it.errored_out)
+                        == merged_r(old(it).underlying.rest(), old(it).overlaying.rest(), old(it).errored_out),
+            decreases merged_r(it.underlying.rest(), it.overlaying.rest(), it.errored_out).len(),
+        {
+            let ghost m = merged_r(it.underlying.rest(), it.overlaying.rest(), it.errored_out);
+            let ghost pre = out@;
+            match it.next() {
+                Some(x) => {
+                    out.push(x);
+                    proof { assert(out@ + m.subrange(1, m.len() as int) =~= pre + m); }
+                }
+                None => {
+                    proof { assert(pre + m =~= pre); }
+                    return out;
+                }
+            }
+        }
     }
 }
 } // verus!
